@@ -122,8 +122,36 @@ KMAP_MAXSYM = 60        # symbols above this only with the maps that have room
 KMAPS_WIDE = ['i32', 'i64', 'i64p53', 'i64lo', 'i64w32', 'f64', 'f64big']
 
 
-def _keys(case, xs):
+# ---- key columns of DIFFERENT integer dtypes on the two sides (case['kmx'] = [left dtype, right dtype]): one strictly
+# increasing map from the key symbols to integers; a symbol may be representable on one side only.  The values are chosen
+# so that a value outside the other side's range collides, after a cast to that dtype (wrap-around at 8/16/32/64 bits,
+# sign reinterpretation), with a key that IS there: c + s * 2^w for c in (-1, 1, 2, 7), w a width of either side.
+INT_DTYPES = ['int8', 'int16', 'int32', 'int64', 'uint8', 'uint16', 'uint32', 'uint64']
+_MIX = {}
+
+
+def mix_syms(A, B):
+    """(values by symbol, symbols representable in A, symbols representable in B)"""
+    if (A, B) not in _MIX:
+        (la, ha), (lb, hb) = _dt_range(A), _dt_range(B)
+        ws = sorted({int(''.join(ch for ch in d if ch.isdigit())) for d in (A, B)})
+        vals = sorted({c + s * (1 << w) for c in (-1, 1, 2, 7) for w in ws for s in (-1, 0, 1)
+                       if la <= c + s * (1 << w) <= ha or lb <= c + s * (1 << w) <= hb})
+        _MIX[(A, B)] = (vals, [k for k, v in enumerate(vals) if la <= v <= ha], [k for k, v in enumerate(vals) if lb <= v <= hb])
+    return _MIX[(A, B)]
+
+
+def _keys(case, xs, side='L'):
     """key symbols -> (ndarray, dtype name)"""
+    if case.get('kmx'):
+        A, B = case['kmx']
+        vals = mix_syms(A, B)[0]
+        kd = A if side == 'L' else B
+        lo, hi = _dt_range(kd)
+        ks = [vals[k] for k in xs]
+        if not all(lo <= v <= hi for v in ks):
+            raise AssertionError('generator: key symbol not representable in ' + kd)
+        return _np.asarray(ks, dtype=kd), kd
     km = case.get('km')
     if km is None:
         kd = case.get('kt', 'int32')
@@ -389,10 +417,10 @@ def _run(case, op, np, ops, S):
     if op in ('ml', 'mr', 'mi'):
         return _run_merge(case, np, ops, S)
     if op == 'gi':
-        Ta, kd = _keys(case, case['T'])
-        Fa, _ = _keys(case, case['F'])
+        Ta, kd = _keys(case, case['T'], 'R')
+        Fa, fd = _keys(case, case['F'], 'L')
         T = Ta if case['form'] == 'a' else _nfield(Ta, kd)
-        F = Fa if case['form'] == 'a' else _nfield(Fa, kd)
+        F = Fa if case['form'] == 'a' else _nfield(Fa, fd)
         if case['dest'] == 'n':
             return [int(x) for x in S.get_index(T, F)]
         if case['dest'] == 'a':
@@ -443,7 +471,7 @@ def _run_oml(case, np, ops, S):
 
     def key(role, xs):
         def make():
-            a, kd = _keys(case, xs)
+            a, kd = _keys(case, xs, role)
             return a if fa == 'a' else _nfield(a, kd, h5)
         return _reg(case, role, 0, make)
     L = key('L', case['L'])
@@ -481,11 +509,11 @@ def _run_oml(case, np, ops, S):
 def _run_omi(case, np, ops, S):
     form = case['form']
     fa = 'a' if form in ('a', 'as') else 'f'
-    La, kd = _keys(case, case['L'])
-    Ra, _ = _keys(case, case['R'])
+    La, kd = _keys(case, case['L'], 'L')
+    Ra, rd = _keys(case, case['R'], 'R')
     h5 = bool(case.get('h5'))
     L = La if fa == 'a' else _nfield(La, kd, h5)
-    R = Ra if fa == 'a' else _nfield(Ra, kd, h5)
+    R = Ra if fa == 'a' else _nfield(Ra, rd, h5)
     ldt = case.get('ldt') or ['int32'] * len(case['lsrcs'])
     rdt = case.get('rdt') or ['int32'] * len(case['rsrcs'])
     _cols_ = (lambda t: None if t is None else [_tcol(x) for x in t]) if case.get('typed') else _cols
@@ -516,11 +544,11 @@ def _run_merge(case, np, ops, S):
     """merge_left / merge_right / merge_inner; payload descriptors: list of [kind, col] with kind 'n'/'i';
        form 'a' ndarray keys and numeric payloads / 'f' fields;  wr: destination writers given"""
     op, form = case['op'], case['form']
-    La, kd = _keys(case, case['L'])
-    Ra, _ = _keys(case, case['R'])
+    La, kd = _keys(case, case['L'], 'L')
+    Ra, rd = _keys(case, case['R'], 'R')
     h5 = bool(case.get('h5'))
     L = La if form == 'a' else _nfield(La, kd, h5)
-    R = Ra if form == 'a' else _nfield(Ra, kd, h5)
+    R = Ra if form == 'a' else _nfield(Ra, rd, h5)
     typed = bool(case.get('typed'))
 
     def pdt(p):
@@ -953,6 +981,18 @@ def features(case, model):
     if case.get('csf'): f.append('chunksize-form:' + case['csf'])
     if case.get('invf'): f.append('invalid-marker-form:' + case['invf'])
     if case.get('km'): f.append('keymap:' + case['km'])
+    if case.get('kmx'):
+        A, B = case['kmx']
+        f.append('mixed-key-dtypes'); f.append('mixed-key-dtypes:%s/%s' % (A, B))
+        vals, okA, okB = mix_syms(A, B)
+        Ls, Rs = case.get('L', case.get('F', [])), case.get('R', case.get('T', []))
+        (la, ha), (lb, hb) = _dt_range(A), _dt_range(B)
+        wa, wb = ha - la + 1, hb - lb + 1
+        lv, rv = {vals[k] for k in Ls}, {vals[k] for k in Rs}
+        wrapA = lambda v: (v - la) % wa + la
+        wrapB = lambda v: (v - lb) % wb + lb
+        if any(not (la <= v <= ha) and wrapA(v) in lv for v in rv): f.append('right-key-collides-with-a-left-key-when-cast-to-the-left-dtype')
+        if any(not (lb <= v <= hb) and wrapB(v) in rv for v in lv): f.append('left-key-collides-with-a-right-key-when-cast-to-the-right-dtype')
     if case.get('grp'): f.append('h5py-group-arguments')
     if case.get('lst'): f.append('payloads-and-sinks-as-lists')
     if case.get('sp'): f.append('join:caller-supplied-spans')
@@ -1251,7 +1291,7 @@ def gen(tier, rng):
         yield {'op': 'omi', 'L': L, 'R': R, 'lu': 0, 'ru': 0, 'n': _n_inner(L, R), 'form': rng.choice(forms4),
                'lsrcs': [_src(len(L), 0)], 'rsrcs': [_src(len(R), 5)]}
     # ---- element types, key dtypes, histories of calls on one Session, aliased arguments, change-directed sizes
-    for g in (_gen_typed, _gen_hist, _gen_alias, _gen_flagforms, _gen_hot, _gen_changed):
+    for g in (_gen_typed, _gen_hist, _gen_alias, _gen_flagforms, _gen_mixed_keys, _gen_hot, _gen_changed):
         for c in g(big, rng):
             yield c
 
@@ -1783,6 +1823,95 @@ def _gen_flagforms(big, rng):
                        'ff': ff, 'lsrcs': [_src(len(L), 0)], 'rsrcs': [_src(len(R), 5)]}
 
 
+MIX_QUICK = [('int32', 'int64'), ('int64', 'int32'), ('int8', 'uint8'), ('uint8', 'int8'), ('int64', 'uint64'), ('uint16', 'int64'),
+             ('int16', 'int8'), ('uint32', 'int32')]
+MIX_MORE = [('uint64', 'int64'), ('int64', 'uint16'), ('int8', 'int16'), ('int32', 'uint32'), ('uint8', 'int64'), ('int16', 'int32'),
+            ('uint32', 'uint64'), ('int64', 'int8')]
+
+
+def _mix_pairs(big):
+    from harness import hot
+    if big:
+        return [(a, b) for a in INT_DTYPES for b in INT_DTYPES if a != b]
+    return MIX_QUICK + (MIX_MORE if hot.changed() else [])      # one numba specialisation of every kernel per pair: a sample
+
+
+def _dups(xs, which):
+    """xs with the symbols at the positions `which` doubled"""
+    out = []
+    for i, x in enumerate(xs):
+        out.extend([x, x] if i in which else [x])
+    return out
+
+
+def _gen_mixed_keys(big, rng):
+    """the two key columns have DIFFERENT integer dtypes (width and / or signedness) and hold values that are outside the
+    other side's range and collide, under a cast to the other dtype, with a key that is there: every entry point, every
+    argument form.  The model joins the key symbols (mathematical integers)."""
+    cnt = 0
+    oforms = [('fs', 'f', 1), ('fs', 'f', 3), ('fs', 'f', None)] + [(f, m, None) for f, m in NONSTREAM]
+    for A, B in _mix_pairs(big):
+        vals, okA, okB = mix_syms(A, B)
+        onlyA = [k for k in okA if k not in okB]
+        onlyB = [k for k in okB if k not in okA]
+        both = [k for k in okA if k in okB]
+        # left key: all its symbols, runs of equal keys at the ends / in the middle; right key (unique): all its symbols,
+        # or only those the left dtype cannot hold (nothing may match) plus one common key
+        lefts = [okA, _dups(okA, (0, len(okA) - 1)), _dups(okA, (1, 2)), both[:1] + onlyA, _dups(both, (0, 1, 2, 3))]
+        rights = [okB, sorted(onlyB + both[-1:]), sorted(onlyB + both[:1]), both, onlyB]
+        kps = []
+        for L in lefts:
+            for R in rights:
+                if (L, R) not in kps and (L or R):
+                    kps.append((L, R))
+        for pi, (L, R) in enumerate(kps):
+            for fi, (form, mapk, cs) in enumerate(oforms):
+                if not big and (pi + fi) % 2:
+                    continue
+                cnt += 1
+                yield {'op': 'oml', 'L': L, 'R': R, 'lu': (cnt % 2 if _strict(L) else 0), 'ru': 1,
+                       'srcs': [_src(len(R), c) for c in range(2 if cnt % 5 == 0 else 1)], 'form': form, 'mapk': mapk, 'cs': cs,
+                       'swap': (cnt // 2) % 2, 'kmx': [A, B], 'h5': 1 if form in ('f', 'fs') and cnt % 7 == 0 else 0}
+        # ordered_merge_inner: duplicates on either side, all four argument forms
+        rdups = [okB, _dups(okB, (0, len(okB) - 1)), _dups(sorted(onlyB + both[:2]), (0, 1)), onlyB]
+        for pi, L in enumerate(lefts):
+            for ri, R in enumerate(rdups):
+                for fi, form in enumerate(('a', 'as', 'f', 'fs')):
+                    if not big and (pi + ri + fi) % 2:
+                        continue
+                    cnt += 1
+                    lu = 1 if _strict(L) and cnt % 2 else 0
+                    ru = 1 if _strict(R) and (cnt // 2) % 2 else 0
+                    yield {'op': 'omi', 'L': L, 'R': R, 'lu': lu, 'ru': ru, 'n': _n_inner(L, R), 'form': form, 'kmx': [A, B],
+                           'lsrcs': [_src(len(L), 0)], 'rsrcs': [_src(len(R), 5)]}
+        # merge_left / merge_right / merge_inner (keys in any order) and get_index
+        for v in range(3 if big else 2):
+            Lu = [rng.choice(okA) for _ in range(rng.randint(3, 7))] + (onlyA[:1] + both[:1])
+            Ru = [rng.choice(okB) for _ in range(rng.randint(3, 7))] + (onlyB[:2] + both[:1])
+            rng.shuffle(Lu); rng.shuffle(Ru)
+            if v == 0:
+                Lu, Ru = sorted(Lu), sorted(Ru)
+            for op in ('ml', 'mr', 'mi'):
+                for form in 'af':
+                    cnt += 1
+                    yield {'op': op, 'L': Lu, 'R': Ru, 'form': form, 'wr': cnt % 2, 'kmx': [A, B],
+                           'lp': [['n', _src(len(Lu), 0)]], 'rp': [['n', _src(len(Ru), 5)]]}
+            yield {'op': 'gi', 'T': Ru, 'F': Lu, 'form': 'af'[v % 2], 'dest': 'naf'[v % 3], 'kmx': [A, B]}
+        # random sorted columns over the symbols of each side
+        for _ in range(40 if big else 12):
+            cnt += 1
+            L = sorted(rng.choice(okA) for _ in range(rng.randint(0, 9)))
+            R = sorted(set(rng.choice(okB) for _ in range(rng.randint(0, 9))))
+            form, mapk, cs = rng.choice(oforms)
+            if cs is not None:
+                cs = rng.randint(1, 4)
+            yield {'op': 'oml', 'L': L, 'R': R, 'lu': 1 if _strict(L) and rng.random() < 0.5 else 0, 'ru': 1, 'srcs': [_src(len(R), 0)],
+                   'form': form, 'mapk': mapk, 'cs': cs, 'swap': rng.randint(0, 1), 'kmx': [A, B]}
+            R2 = sorted(rng.choice(okB) for _ in range(rng.randint(0, 9)))
+            yield {'op': 'omi', 'L': L, 'R': R2, 'lu': 0, 'ru': 0, 'n': _n_inner(L, R2), 'form': rng.choice(['a', 'as', 'f', 'fs']),
+                   'kmx': [A, B], 'lsrcs': [_src(len(L), 0)], 'rsrcs': [_src(len(R2), 5)]}
+
+
 def _gen_hot(big, rng):
     """change-directed: a small integer literal that is new in the tree under test (harness/hot.py) is used as chunk size,
     column length, run length and number of payloads"""
@@ -1947,6 +2076,16 @@ def warmup():
         for lu in (0, 1):
             for form, mapk, cs in (('a', 'n', None), ('fs', 'f', 2)):
                 cases.append(_toml([1, 2], [2, 3], ['int32'], form, mapk, cs, km=km, lu=lu))
+    # one specialisation of the key kernels per PAIR of key dtypes (the quick tier's sample)
+    for A, B in MIX_QUICK:
+        vals, okA, okB = mix_syms(A, B)
+        for lu in (0, 1):
+            for form, mapk, cs in (('a', 'n', None), ('fs', 'f', 2)):
+                cases.append({'op': 'oml', 'L': okA[:2], 'R': okB[:2], 'lu': lu, 'ru': 1, 'srcs': [[5, 6]], 'form': form, 'mapk': mapk,
+                              'cs': cs, 'kmx': [A, B]})
+            for ru in (0, 1):
+                cases.append({'op': 'omi', 'L': okA[:2], 'R': okB[:2], 'lu': lu, 'ru': ru, 'n': _n_inner(okA[:2], okB[:2]), 'form': 'a',
+                              'lsrcs': [[5, 6]], 'rsrcs': [[7, 8]], 'kmx': [A, B]})
     # numpy-integer chunk sizes (np.int32 is another numba argument type than int) and Python-int invalid markers
     for csf in ('ni', 'n32'):
         for lu in (0, 1):
